@@ -20,6 +20,38 @@ inductive Prov where
   | projected    -- output of successful projectQ and projectU at the tolerance in use
   deriving DecidableEq, Repr
 
+/-- the branch structure of `AbstractIntegratorRep::attemptDAEStep` on its four decisions:
+(converged, provenance of the advanced state, projectQ was called, projectU was called) -/
+def attemptDAECore (odeConverged gateExceeded projQok projUok : Bool) : Bool × Prov × Bool × Bool :=
+  if !odeConverged then (false, .raw, false, false)
+  else if gateExceeded then (true, .raw, false, false)     -- "this step converged, but isn't worth projecting"
+  else if !projQok then (false, .raw, true, false)
+  else if !projUok then (false, .raw, true, true)
+  else (true, .projected, true, true)
+
+/-- one trial step as seen by the decision structure -/
+structure Att where
+  odeConverged : Bool
+  gateExceeded : Bool    -- errNorm > 2^p * accuracy
+  projQok : Bool
+  projUok : Bool
+  errWithinAcc : Bool    -- errNorm <= accuracy (what makes adjustStepSize succeed, C20)
+  deriving Repr
+
+/-- `stepSucceeded` of `takeOneStep` on Booleans -/
+def stepAcceptedB (hasErrorControl minForced converged errWithinAcc : Bool) : Bool :=
+  if hasErrorControl then (converged && errWithinAcc) || minForced else true
+
+/-- the `do … while (!stepSucceeded)` loop of `takeOneStep` over the successive trial steps: provenance of the advanced
+state when a step is finally accepted, number of convergence-test failures, number of error-test failures -/
+def stepLoop (hasErrCtl forced : Bool) : List Att → Nat → Nat → Option (Prov × Nat × Nat)
+  | [], _, _ => none
+  | a :: rest, cf, ef =>
+    let r := attemptDAECore a.odeConverged a.gateExceeded a.projQok a.projUok
+    let cf' := if r.1 then cf else cf + 1
+    if stepAcceptedB hasErrCtl forced r.1 a.errWithinAcc then some (r.2.1, cf', ef)
+    else stepLoop hasErrCtl forced rest cf' (ef + 1)
+
 section
 variable {K : Type} [LT K] [LE K] [DecidableLT K] [DecidableLE K]
 
@@ -33,11 +65,8 @@ structure DAEIn (K : Type) where
 
 /-- `AbstractIntegratorRep::attemptDAEStep` : (converged, provenance of the advanced state afterwards) -/
 def attemptDAEStep (i : DAEIn K) : Bool × Prov :=
-  if !i.odeConverged then (false, .raw)
-  else if i.gate < i.errNorm then (true, .raw)      -- "this step converged, but isn't worth projecting"
-  else if !i.projQok then (false, .raw)
-  else if !i.projUok then (false, .raw)
-  else (true, .projected)
+  let r := attemptDAECore i.odeConverged (decide (i.gate < i.errNorm)) i.projQok i.projUok
+  (r.1, r.2.1)
 
 /-- acceptance of the trial step in `takeOneStep`: `hasErrorControl ? adjustStepSize(errNorm, …) : true`, where
 `adjustStepSize` succeeds iff the error norm is finite and ≤ accuracy (C20 `adjust_success_iff_err_le_acc`) OR the
@@ -61,6 +90,42 @@ def handOut (projectInterpolated : Bool) (advanced : Prov) (projOK : Bool) : Han
       else some .prescribed
   | .backedUp => if projOK then some .projected else none                      -- ignores the user's request not to project
 end
+
+/-- what one `Integrator::stepTo` call does to the provenance bookkeeping -/
+structure CallObs where
+  step       : Option (List Att)   -- `some atts` if the call took an internal step (its trial steps), `none` otherwise
+  backedUp   : Bool                -- an event was localised with tHigh < t1: backUpAdvancedStateByInterpolation(tHigh)
+  interp     : Bool                -- the state handed out is the interpolated one (report inside a step / event before-state)
+  projOK     : Bool                -- every throwing projection of this call succeeded
+  deriving Repr
+
+/-- provenance of the advanced state after the call and of the state handed out (`none`: the call throws) -/
+def callProv (hasErrCtl forced projectInterpolated : Bool) (adv : Prov) (c : CallObs) : Option (Prov × Prov) :=
+  -- every throwing projection inside stepTo propagates (localisation probes, back-up, hand-out interpolation)
+  if !c.projOK then none else
+  let adv1 : Option Prov :=
+    match c.step with
+    | none => some adv
+    | some atts => (stepLoop hasErrCtl forced atts 0 0).map (·.1)
+  match adv1 with
+  | none => none
+  | some a1 =>
+    let adv2 : Option Prov := if c.backedUp then handOut projectInterpolated a1 c.projOK .backedUp else some a1
+    match adv2 with
+    | none => none
+    | some a2 =>
+      match (if c.interp then handOut projectInterpolated a2 c.projOK .interpolated
+             else handOut projectInterpolated a2 c.projOK .stepState) with
+      | none => none
+      | some r => some (a2, r)
+
+/-- a whole session: provenance of every handed-out state (stops at a throwing call) -/
+def sessionProv (hasErrCtl forced projectInterpolated : Bool) : Prov → List CallObs → List Prov
+  | _, [] => []
+  | adv, c :: cs =>
+    match callProv hasErrCtl forced projectInterpolated adv c with
+    | none => []
+    | some (a2, r) => r :: sessionProv hasErrCtl forced projectInterpolated a2 cs
 
 /-! ### acceptance contract (kind K) -/
 section
